@@ -43,6 +43,11 @@ func (c *Conn) Sendfile(f *os.File, remain int64) (int64, error) {
 	if (remain <= 0) || (remain > size-offset) {
 		remain = size - offset
 	}
+	// Nothing to send: an empty entry must not be pushed to writeList, flush
+	// would never pop it and loop forever.
+	if remain <= 0 {
+		return 0, nil
+	}
 
 	// f.Fd() will set the fd to blocking mod.
 	// We need to set the fd to non-blocking mod again.
